@@ -1,6 +1,11 @@
 //! vcheck: runtime monitors for stretto. One process = one shard of one engine for one property.
 mod common;
+mod driver;
 mod engines;
+mod oracle;
+mod script;
+mod supervise;
+mod val;
 
 use common::{Report, Rng};
 
@@ -27,7 +32,17 @@ fn main() {
     common::install_panic_monitor();
     let mut rep = Report::new(&engine, &prop, seed, shard, &tier);
     let rng = Rng::new(seed).derive(shard.wrapping_mul(0x9e37_79b9) ^ common::hash_of(&(engine.as_str(), prop.as_str())));
-    let ctx = engines::Ctx { prop: prop.clone(), tier: tier.clone(), shard, shards, scale, replay };
+    let ctx = engines::Ctx {
+        prop: prop.clone(),
+        tier: tier.clone(),
+        shard,
+        shards,
+        scale,
+        replay,
+        flavors: arg(&args, "--flavors"),
+        quick_n: arg(&args, "--quick-n").and_then(|s| s.parse().ok()),
+        thorough_n: arg(&args, "--thorough-n").and_then(|s| s.parse().ok()),
+    };
     let t0 = std::time::Instant::now();
     engines::dispatch(&engine, &ctx, rng, &mut rep);
     rep.add("wall_ms", t0.elapsed().as_millis() as u64);
